@@ -17,10 +17,7 @@ def hashSpec? : String → Option Rfc6979.HashSpec
   | "sha512" => some ⟨hmacSha512, 64⟩
   | _ => none
 
-/-- `_is_x_coordinate_var` (Python arm): `0 ≤ x < p` and the Legendre symbol of `y²(x)` is not −1 -/
-def isXCoord (c : EC.Curve) (x : Int) : Bool :=
-  decide (0 ≤ x ∧ x < c.p) &&
-    (EC.modPow (EC.y2 c.toCurveGroup x) ((c.p.toNat - 1) / 2) c.p != c.p - 1)
+def isXCoord := Ecdsa.isXCoord
 
 def bool? : String → Option Bool
   | "1" => some true
@@ -41,11 +38,7 @@ def renderOut {β : Type} (f : β → String) : Rfc6979.Out β → String
 
 def fuel : Nat := 4000
 
-/-- a public key given as a tuple: `point_from_pub_key` refuses what is not on the curve or has y = 0 -/
-def pubKeyOk (c : EC.Curve) (Q : EC.Point) : Bool :=
-  match EC.isOnCurve c.toCurveGroup Q with
-  | some true => Q.2 != 0
-  | _ => false
+def pubKeyOk := Ecdsa.pubKeyOk
 
 def pts (l : List EC.Point) : String :=
   "ok" ++ String.join (l.map fun P => s!" {P.1} {P.2}")
